@@ -52,3 +52,14 @@ def no_two_cycles(A):
 def graph(A):
     """the two input classes the properties quantify over: binary PDAGs and DAG weight matrices of any sign"""
     return square(A) and zero_diag(A) and (binary(A) or no_two_cycles(A))
+
+
+@spec
+def directed_part(P):
+    return array_of(len(P), len(P), lambda i, j: P[i, j] if dedge(P, i, j) else 0.0)
+
+
+@spec
+def pdag_ok(P):
+    """a partially directed graph whose directed part is acyclic (what the properties call a PDAG)"""
+    return square(P) and zero_diag(P) and acyclic(directed_part(P))
